@@ -34,6 +34,50 @@ Inductive ekind :=
 | Panicked      (* the Rust code would panic here (unwrap, assert, slice, ...) *)
 | OutOfFuel.    (* a fuelled model loop ran out of fuel: excluded by the theorems *)
 
+Definition ekind_name (k : ekind) : string :=
+  match k with
+  | MismatchedMuxWidths => "MismatchedMuxWidths"
+  | MismatchedExprWidths => "MismatchedExprWidths"
+  | MismatchedWireWidths => "MismatchedWireWidths"
+  | MismatchedRegisterDefaultWidths => "MismatchedRegisterDefaultWidths"
+  | DuplicateRegister => "DuplicateRegister"
+  | RuntimeMismatchedWidths => "RuntimeMismatchedWidths"
+  | UndeclaredWireAssigned => "UndeclaredWireAssigned"
+  | UndeclaredWireRead => "UndeclaredWireRead"
+  | NonConstantWireRead => "NonConstantWireRead"
+  | UnsetWire => "UnsetWire"
+  | UnsetBuiltinWire => "UnsetBuiltinWire"
+  | UnsetUndeclaredWire => "UnsetUndeclaredWire"
+  | UnsetRegisterInputWire => "UnsetRegisterInputWire"
+  | RedeclaredWire => "RedeclaredWire"
+  | DoubleAssignedWire => "DoubleAssignedWire"
+  | DoubleAssignedRegisterWire => "DoubleAssignedRegisterWire"
+  | DoubleDeclaredRegisterOutWire => "DoubleDeclaredRegisterOutWire"
+  | DoubleAssignedFixedOutWire => "DoubleAssignedFixedOutWire"
+  | RedeclaredBuiltinWire => "RedeclaredBuiltinWire"
+  | PartialFixedInput => "PartialFixedInput"
+  | WireLoop => "WireLoop"
+  | InvalidWireWidth => "InvalidWireWidth"
+  | InvalidRegisterBankName => "InvalidRegisterBankName"
+  | InvalidBitIndex => "InvalidBitIndex"
+  | NonBooleanWidth => "NonBooleanWidth"
+  | NoBitWidth => "NoBitWidth"
+  | MisorderedBitIndexes => "MisorderedBitIndexes"
+  | InvalidConstant => "InvalidConstant"
+  | WireTooWide => "WireTooWide"
+  | NoMuxDefaultOption => "NoMuxDefaultOption"
+  | MultipleMuxDefaultOption => "MultipleMuxDefaultOption"
+  | UnreachableOptions => "UnreachableOptions"
+  | DivisionByZero => "DivisionByZero"
+  | EmptyFile => "EmptyFile"
+  | UnparseableLine => "UnparseableLine"
+  | UnterminatedComment => "UnterminatedComment"
+  | LexicalError => "LexicalError"
+  | AssignedConstant => "AssignedConstant"
+  | Panicked => "Panicked"
+  | OutOfFuel => "OutOfFuel"
+  end%string.
+
 Record err := mkErr { ek : ekind; enames : list string }.
 
 Inductive result (A : Type) :=
